@@ -223,11 +223,10 @@ theorem cache_mode_independent (E : Env F C) (hE : EnvOK E) (ops : List (Op F)) 
 theorem stencil_sizes : stencilBilinear.length = 4 ∧ stencilCubic.length = Gen.GeoidC.stencilsize ∧ Gen.GeoidC.nterms = 10 ∧
     Gen.GeoidC.c3.length = 120 ∧ Gen.GeoidC.c3n.length = 120 ∧ Gen.GeoidC.c3s.length = 120 ∧ Gen.GeoidC.pixelMax = 65535 := by decide
 
-/-- in-bounds reads: for a cell `0 ≤ ix < w`, `−1 ≤ iy ≤ h−2` (w even ≥ 2, h ≥ 3; row −1 is where the code puts latitude +90
-    on the rasters of the open finding "north-pole-row") every stencil point maps, after wrap and pole reflection, to a
-    pixel inside the raster -/
+/-- in-bounds reads: for a cell `0 ≤ ix < w`, `0 ≤ iy ≤ h−2` (w even ≥ 2, h ≥ 3; exactly the cells `Geoid::height` can locate,
+    `concrete_loc_in_raster`) every stencil point maps, after wrap and pole reflection, to a pixel inside the raster -/
 theorem stencil_in_bounds (H : Hdr) (hw : 2 ≤ H.w) (hwe : H.w % 2 = 0) (hh : 3 ≤ H.h)
-    (ix iy : Int) (hx : 0 ≤ ix ∧ ix < H.w) (hy : -1 ≤ iy ∧ iy ≤ H.h - 2) :
+    (ix iy : Int) (hx : 0 ≤ ix ∧ ix < H.w) (hy : 0 ≤ iy ∧ iy ≤ H.h - 2) :
     ∀ d ∈ stencilCubic ++ stencilBilinear,
       0 ≤ (fileIdx H (ix + d.1) (iy + d.2)).1 ∧ (fileIdx H (ix + d.1) (iy + d.2)).1 < H.w ∧
       0 ≤ (fileIdx H (ix + d.1) (iy + d.2)).2 ∧ (fileIdx H (ix + d.1) (iy + d.2)).2 < H.h := by
@@ -307,19 +306,19 @@ example : (2:ℤ) ≤ (⟨8, 5, .fin false 0 0, .fin false 1 0, #[]⟩ : File).w
 structure FileOK (f : File) : Prop where
   w2 : 2 ≤ f.w
   wev : f.w % 2 = 0
-  wmax : f.w ≤ 2 ^ 31
+  wmax : f.w ≤ 2 ^ 30
   h3 : 3 ≤ f.h
-  hmax : f.h ≤ 2 ^ 31
+  hmax : f.h ≤ 2 ^ 30
 
 theorem FileOK.env {f : File} (hf : FileOK f) (cubic : Bool) : EnvOK (concrete f cubic) :=
-  concrete_envOK f cubic hf.w2 hf.wev hf.wmax
+  concrete_envOK f cubic hf.w2 hf.wev (by have := hf.wmax; omega)
 
 /-- **the window hypothesis is discharged**: every window that the executed model of `CacheArea`'s floating-point index
     arithmetic produces satisfies `WindowOK` (and its rows lie in `[−1, h]`) -/
 theorem cacheWindow_windowOK (f : File) (cubic : Bool) (hf : FileOK f) (so we no ea : F64) (xo yo xs ys : Int)
     (h : cacheWindow f cubic so we no ea = .set xo yo xs ys) :
     WindowOK (concrete f cubic) (.cacheSet xo yo xs ys) ∧ -1 ≤ yo ∧ 0 < ys ∧ yo + ys ≤ f.h + 1 := by
-  obtain ⟨a1, a2, a3, a4, a5, a6, a7⟩ := cacheWindow_ok f cubic hf.w2 hf.wev hf.wmax hf.h3 hf.hmax so we no ea xo yo xs ys h
+  obtain ⟨a1, a2, a3, a4, a5, a6, a7⟩ := cacheWindow_ok f cubic hf.w2 hf.wev (by have := hf.wmax; omega) hf.h3 (by have := hf.hmax; omega) so we no ea xo yo xs ys h
   refine ⟨?_, a5, a6, a7⟩
   intro xo' yo' xs' ys' he
   cases he
@@ -411,13 +410,14 @@ theorem header_constants_match_source :
 
 /-- **`header_accept_iff`**: the constructor accepts a file exactly when the scanner finds magic, comment block, raster
     size and maxval, and then: maxval = 65535, an offset other than the sentinel, a scale that is neither 0 nor
-    negative, width and height ≥ 2, width even, height odd, the stream position after maxval is known and the
-    file length equals `datastart + 2·width·height` (as coded, in 64-bit arithmetic) -/
+    negative, width and height ≥ 2, width even, height odd, both at most 2^30 (so that the `int` index arithmetic cannot
+    overflow: repair f4ec5a8 of finding F73), the stream position after maxval is known and the file length equals
+    `datastart + 2·width·height` (as coded, in 64-bit arithmetic) -/
 theorem header_accept_iff (cubic : Bool) (file : Bytes) (len : Nat) (H : Header) :
     parse cubic file len = .ok H ↔
       ∃ raw, scan cubic file = .ok raw ∧
         raw.maxval = pixelMax ∧ F64.eq raw.st.offset Decimal.maxFinite = false ∧ F64.eq raw.st.scale 0 = false ∧
-        F64.lt raw.st.scale 0 = false ∧ 2 ≤ raw.w ∧ 2 ≤ raw.h ∧ raw.w % 2 = 0 ∧ raw.h % 2 = 1 ∧
+        F64.lt raw.st.scale 0 = false ∧ 2 ≤ raw.w ∧ 2 ≤ raw.h ∧ raw.w % 2 = 0 ∧ raw.h % 2 = 1 ∧ raw.w ≤ 2 ^ 30 ∧ raw.h ≤ 2 ^ 30 ∧
         ∃ p, raw.tell = some p ∧ lengthOKCoded (p + 1) raw.w raw.h len = true ∧ H = hdrOf raw (p + 1) := by
   unfold parse
   cases hs : scan cubic file with
@@ -433,20 +433,20 @@ theorem header_accept_iff_nat (cubic : Bool) (file : Bytes) (len : Nat) (H : Hea
     parse cubic file len = .ok H ↔
       ∃ raw p, scan cubic file = .ok raw ∧ raw.tell = some p ∧
         raw.maxval = pixelMax ∧ F64.eq raw.st.offset Decimal.maxFinite = false ∧ F64.eq raw.st.scale 0 = false ∧
-        F64.lt raw.st.scale 0 = false ∧ 2 ≤ raw.w ∧ 2 ≤ raw.h ∧ raw.w % 2 = 0 ∧ raw.h % 2 = 1 ∧
+        F64.lt raw.st.scale 0 = false ∧ 2 ≤ raw.w ∧ 2 ≤ raw.h ∧ raw.w % 2 = 0 ∧ raw.h % 2 = 1 ∧ raw.w ≤ 2 ^ 30 ∧ raw.h ≤ 2 ^ 30 ∧
         p + 1 + 2 * raw.w.toNat * raw.h.toNat = len ∧ H = hdrOf raw (p + 1) := by
   rw [header_accept_iff]
   constructor
-  · rintro ⟨raw, hs, a1, a2, a3, a4, a5, a6, a7, a8, p, hp, hl, hH⟩
+  · rintro ⟨raw, hs, a1, a2, a3, a4, a5, a6, a7, a8, a9, a10, p, hp, hl, hH⟩
     obtain ⟨⟨⟨_, w2⟩, ⟨_, h2⟩⟩, hpos⟩ := scan_props cubic file raw hs
     have := hpos p hp
     have hl' := (lengthOKCoded_iff (p + 1) raw.w raw.h len ⟨by omega, by omega⟩ ⟨by omega, by omega⟩ (by omega) hlen).mp hl
-    exact ⟨raw, p, hs, hp, a1, a2, a3, a4, a5, a6, a7, a8, hl', hH⟩
-  · rintro ⟨raw, p, hs, hp, a1, a2, a3, a4, a5, a6, a7, a8, hl, hH⟩
+    exact ⟨raw, p, hs, hp, a1, a2, a3, a4, a5, a6, a7, a8, a9, a10, hl', hH⟩
+  · rintro ⟨raw, p, hs, hp, a1, a2, a3, a4, a5, a6, a7, a8, a9, a10, hl, hH⟩
     obtain ⟨⟨⟨_, w2⟩, ⟨_, h2⟩⟩, hpos⟩ := scan_props cubic file raw hs
     have := hpos p hp
     have hl' := (lengthOKCoded_iff (p + 1) raw.w raw.h len ⟨by omega, by omega⟩ ⟨by omega, by omega⟩ (by omega) hlen).mpr hl
-    exact ⟨raw, hs, a1, a2, a3, a4, a5, a6, a7, a8, p, hp, hl', hH⟩
+    exact ⟨raw, hs, a1, a2, a3, a4, a5, a6, a7, a8, a9, a10, p, hp, hl', hH⟩
 
 /-- **which exception**: a file is rejected with the exception of the first failing step, in the order of the source:
     an error of the scanner, or else the first violated test of `validate` -/
@@ -471,22 +471,24 @@ theorem header_reject_classes (raw : Raw) (len : Nat) :
         F64.lt raw.st.scale 0 = false ∧ 2 ≤ raw.h ∧ 2 ≤ raw.w ∧ raw.w % 2 = 1) ∧
     (validate raw len = .error .heightEven ↔ raw.maxval = pixelMax ∧ F64.eq raw.st.offset Decimal.maxFinite = false ∧ F64.eq raw.st.scale 0 = false ∧
         F64.lt raw.st.scale 0 = false ∧ 2 ≤ raw.h ∧ 2 ≤ raw.w ∧ raw.w % 2 = 0 ∧ raw.h % 2 = 0) ∧
+    (validate raw len = .error .tooLarge ↔ raw.maxval = pixelMax ∧ F64.eq raw.st.offset Decimal.maxFinite = false ∧ F64.eq raw.st.scale 0 = false ∧
+        F64.lt raw.st.scale 0 = false ∧ 2 ≤ raw.h ∧ 2 ≤ raw.w ∧ raw.w % 2 = 0 ∧ raw.h % 2 = 1 ∧ (2 ^ 30 < raw.w ∨ 2 ^ 30 < raw.h)) ∧
     (validate raw len = .error .wrongLength ↔ raw.maxval = pixelMax ∧ F64.eq raw.st.offset Decimal.maxFinite = false ∧ F64.eq raw.st.scale 0 = false ∧
-        F64.lt raw.st.scale 0 = false ∧ 2 ≤ raw.h ∧ 2 ≤ raw.w ∧ raw.w % 2 = 0 ∧ raw.h % 2 = 1 ∧
+        F64.lt raw.st.scale 0 = false ∧ 2 ≤ raw.h ∧ 2 ≤ raw.w ∧ raw.w % 2 = 0 ∧ raw.h % 2 = 1 ∧ raw.w ≤ 2 ^ 30 ∧ raw.h ≤ 2 ^ 30 ∧
         (raw.tell = none ∨ ∃ p, raw.tell = some p ∧ lengthOKCoded (p + 1) raw.w raw.h len = false)) ∧
-    (∀ e, validate raw len = .error e → e ∈ [Err.maxvalValue, .offsetUnset, .scaleUnset, .scaleNeg, .tooSmall, .widthOdd, .heightEven, .wrongLength]) :=
+    (∀ e, validate raw len = .error e → e ∈ [Err.maxvalValue, .offsetUnset, .scaleUnset, .scaleNeg, .tooSmall, .widthOdd, .heightEven, .tooLarge, .wrongLength]) :=
   validate_error_iff raw len
 
-/-- **shape of an accepted raster**: even width in [2, 2^31), odd height in [3, 2^31), data inside the file -/
+/-- **shape of an accepted raster**: even width in [2, 2^30], odd height in [3, 2^30), data inside the file -/
 theorem accepted_shape (cubic : Bool) (file : Bytes) (len : Nat) (H : Header) (hfl : file.length < 2 ^ 62) (hlen : len < 2 ^ 64)
     (hacc : parse cubic file len = .ok H) :
-    2 ≤ H.w ∧ H.w % 2 = 0 ∧ H.w ≤ 2 ^ 31 - 1 ∧ 3 ≤ H.h ∧ H.h % 2 = 1 ∧ H.h ≤ 2 ^ 31 - 1 ∧
+    2 ≤ H.w ∧ H.w % 2 = 0 ∧ H.w ≤ 2 ^ 30 ∧ 3 ≤ H.h ∧ H.h % 2 = 1 ∧ H.h ≤ 2 ^ 30 - 1 ∧
     1 ≤ H.datastart ∧ H.datastart ≤ file.length ∧ (H.datastart : Int) + 2 * H.w * H.h = len := by
-  obtain ⟨raw, p, hs, hp, _, _, _, _, a5, a6, a7, a8, hl, rfl⟩ := (header_accept_iff_nat cubic file len H hfl hlen).mp hacc
+  obtain ⟨raw, p, hs, hp, _, _, _, _, a5, a6, a7, a8, a9, a10, hl, rfl⟩ := (header_accept_iff_nat cubic file len H hfl hlen).mp hacc
   obtain ⟨⟨⟨_, w2⟩, ⟨_, h2⟩⟩, hpos⟩ := scan_props cubic file raw hs
   have := hpos p hp
   simp only [hdrOf]
-  refine ⟨a5, a7, w2, by omega, a8, h2, by omega, by omega, ?_⟩
+  refine ⟨a5, a7, a9, by omega, a8, by omega, by omega, by omega, ?_⟩
   have e1 : ((raw.w.toNat : Nat) : Int) = raw.w := Int.toNat_of_nonneg (by omega)
   have e2 : ((raw.h.toNat : Nat) : Int) = raw.h := Int.toNat_of_nonneg (by omega)
   rw [← hl]
@@ -512,11 +514,11 @@ theorem pixel_in_file (H : Header) (len : Nat) (hw : 0 < H.w) (hlen : (H.datasta
   refine ⟨by omega, by omega, by omega⟩
 
 /-- **accepted ⇒ every read of `height` is inside the file**: for every accepted file, every cell that the location
-    arithmetic can produce (`0 ≤ ix < w`, `−1 ≤ iy ≤ h − 2`, see `concrete_loc_in_raster`) and every point of the bilinear
+    arithmetic can produce (`0 ≤ ix < w`, `0 ≤ iy ≤ h − 2`, see `concrete_loc_in_raster`) and every point of the bilinear
     and cubic stencils, the pixel that `rawval` addresses after longitude wrap and pole reflection lies inside the
     file: `datastart ≤ filepos ∧ filepos + 1 < length`, and `filepos` does not overflow the stream offset -/
 theorem accepted_reads_in_file (cubic : Bool) (file : Bytes) (len : Nat) (H : Header) (hfl : file.length < 2 ^ 62) (hlen : len < 2 ^ 63)
-    (hacc : parse cubic file len = .ok H) (ix iy : Int) (hx : 0 ≤ ix ∧ ix < H.w) (hy : -1 ≤ iy ∧ iy ≤ H.h - 2) :
+    (hacc : parse cubic file len = .ok H) (ix iy : Int) (hx : 0 ≤ ix ∧ ix < H.w) (hy : 0 ≤ iy ∧ iy ≤ H.h - 2) :
     ∀ d ∈ stencilCubic ++ stencilBilinear,
       (H.datastart : Int) ≤ GeoidHeader.filepos H (fileIdx ⟨H.w, H.h⟩ (ix + d.1) (iy + d.2)).1 (fileIdx ⟨H.w, H.h⟩ (ix + d.1) (iy + d.2)).2 ∧
       GeoidHeader.filepos H (fileIdx ⟨H.w, H.h⟩ (ix + d.1) (iy + d.2)).1 (fileIdx ⟨H.w, H.h⟩ (ix + d.1) (iy + d.2)).2 + 1 < len ∧
@@ -526,11 +528,12 @@ theorem accepted_reads_in_file (cubic : Bool) (file : Bytes) (len : Nat) (H : He
   obtain ⟨b1, b2, b3, b4⟩ := stencil_in_bounds ⟨H.w, H.h⟩ a1 a2 a4 ix iy hx hy d hd
   exact pixel_in_file H len (by omega) a9 hlen _ _ ⟨b1, b2⟩ ⟨b3, b4⟩
 
-/-- **the cell that `Geoid::height` locates is inside the raster** for every binary64 position: `0 ≤ ix < w` and
-    `−1 ≤ iy ≤ h − 2` (row −1: only latitude +90 on the raster heights of the open finding "north-pole-row") -/
+/-- **the cell that `Geoid::height` locates is inside the raster** for every binary64 position, the poles included:
+    `0 ≤ ix < w` and `0 ≤ iy ≤ h − 2` — exactly the cells of the raster (before the repair 63168e3 of finding F72 latitude +90
+    could land in row −1: `Geoid.north_row_needs_clamp`) -/
 theorem concrete_loc_in_raster (f : File) (hf : FileOK f) (lat lon : F64) (ix iy : Int) (fx fy : F64)
-    (h : locF f lat lon = some (ix, iy, fx, fy)) : (0 ≤ ix ∧ ix < f.w) ∧ (-1 ≤ iy ∧ iy ≤ f.h - 2) :=
-  ⟨locF_ix_range f hf.w2 hf.wmax lat lon ix iy fx fy h, locF_iy_range f hf.h3 hf.hmax lat lon ix iy fx fy h⟩
+    (h : locF f lat lon = some (ix, iy, fx, fy)) : (0 ≤ ix ∧ ix < f.w) ∧ (0 ≤ iy ∧ iy ≤ f.h - 2) :=
+  ⟨locF_ix_range f hf.w2 (by have := hf.wmax; omega) lat lon ix iy fx fy h, locF_iy_range f hf.h3 lat lon ix iy fx fy h⟩
 
 /-- **header validation ⇒ in-file reads, end to end**: for an accepted file and *any* binary64 position, every pixel the
     bilinear or cubic stencil of the located cell addresses lies inside the file -/
@@ -572,7 +575,7 @@ theorem accepted_cache_reads_in_file (cubic : Bool) (file : Bytes) (len : Nat) (
     GeoidHeader.filepos H (fillIdx ⟨H.w, H.h⟩ xo yo xs j k).1 (fillIdx ⟨H.w, H.h⟩ xo yo xs j k).2 + 1 < len := by
   have hf := accepted_fileOK cubic file len H hfl (by omega) hacc f hfw hfh
   obtain ⟨a1, a2, _, a4, _, _, _, _, a9⟩ := accepted_shape cubic file len H hfl (by omega) hacc
-  obtain ⟨c1, c2, c3, c4, c5, c6, c7⟩ := cacheWindow_ok f cubic hf.w2 hf.wev hf.wmax hf.h3 hf.hmax so we no ea xo yo xs ys hwin
+  obtain ⟨c1, c2, c3, c4, c5, c6, c7⟩ := cacheWindow_ok f cubic hf.w2 hf.wev (by have := hf.wmax; omega) hf.h3 (by have := hf.hmax; omega) so we no ea xo yo xs ys hwin
   rw [hfw] at c2 c4; rw [hfh] at c7
   obtain ⟨⟨b1, b2⟩, ⟨b3, b4⟩⟩ := fillIdx_in_raster ⟨H.w, H.h⟩ a1 a2 a4 xo yo xs c1 c2 c4 j k hk.1 hk.2 (by constructor <;> (simp only []; omega))
   have := pixel_in_file H len (by omega) a9 hlen _ _ ⟨b1, b2⟩ ⟨b3, b4⟩
@@ -593,19 +596,21 @@ theorem header_structure (cubic : Bool) (ls : List Bytes) (hls : ∀ l ∈ ls, 1
         | some (w, h) => readMaxval st w h (magic.length + 1 + (joinLines ls).length + sz.length + 1) rest :=
   scan_structured cubic ls hls sz rest h10 c t hsz hc
 
-/-- **every canonical file of every admissible size** (the seeded 32-bit length overflow as a theorem): for every even
-    width in [2, 2^31), every odd height in [3, 2^31), every data section and every length below 2^64, the file
-    `P5 / # Offset -108 / # Scale 0.003 / w h / 65535 / data` is accepted exactly when its length is `header + 2·w·h` in
-    unbounded arithmetic — then with the announced width, height, offset −108, scale 0.003 and `datastart` = header
-    length — and with any other length the exception is "File has the wrong length" -/
+/-- **every canonical file of every size** (the seeded 32-bit length overflow, and the size limit, as a theorem): for every
+    even width in [2, 2^31), every odd height in [3, 2^31), every data section and every length below 2^64, the file
+    `P5 / # Offset -108 / # Scale 0.003 / w h / 65535 / data` is rejected with "Raster size too large" when a dimension
+    exceeds 2^30; otherwise it is accepted exactly when its length is `header + 2·w·h` in unbounded arithmetic — then with
+    the announced width, height, offset −108, scale 0.003 and `datastart` = header length — and with any other length the
+    exception is "File has the wrong length" -/
 theorem canonical_file_accept_iff (cubic : Bool) (w h : Nat) (hw2 : 2 ≤ w) (hwe : w % 2 = 0) (hwm : w < 2 ^ 31)
     (hh3 : 3 ≤ h) (hho : h % 2 = 1) (hhm : h < 2 ^ 31) (data : Bytes) (len : Nat) (hlen : len < 2 ^ 64) :
-    (len = canonHeaderLen w h + 2 * w * h →
+    (2 ^ 30 < w ∨ 2 ^ 30 < h → parse cubic (canonFile w h data) len = .error .tooLarge) ∧
+    (w ≤ 2 ^ 30 → h ≤ 2 ^ 30 → len = canonHeaderLen w h + 2 * w * h →
       parse cubic (canonFile w h data) len = .ok
         { offset := F64.fin true 108 0, scale := F64.fin false 6917529027641082 (-61), maxerror := HState.init.maxerror,
           rmserror := HState.init.rmserror, description := HState.init.description, datetime := HState.init.datetime,
           w := w, h := h, datastart := canonHeaderLen w h }) ∧
-    (len ≠ canonHeaderLen w h + 2 * w * h → parse cubic (canonFile w h data) len = .error .wrongLength) :=
+    (w ≤ 2 ^ 30 → h ≤ 2 ^ 30 → len ≠ canonHeaderLen w h + 2 * w * h → parse cubic (canonFile w h data) len = .error .wrongLength) :=
   canonical_file cubic w h hw2 hwe hwm hh3 hho hhm data len hlen
 
 example : canonFile 2 3 [] = str "P5\n# Offset -108\n# Scale 0.003\n2 3\n65535\n" ∧ canonHeaderLen 2 3 = 41 := by
